@@ -47,12 +47,94 @@ def work(tier, seed):
     for g in ms:
         items.append({"genuines": g})
     items.append({"labels": True})
+    items.append({"label_kinds": True})
+    items.append({"wide_dtypes": True})
     return items
 
 
 def _eq(a, b):
     a, b = np.asarray(a), np.asarray(b)
     return a.shape == b.shape and np.array_equal(a, b, equal_nan=True)
+
+
+def _run_label_kinds(ctx):
+    """from_labels splits by the genuine label for every kind of label array and every genuine_label value."""
+    from score_analysis.applications.doc_fraud import FraudScores
+
+    scores = [0.1, 0.6, 0.6, 0.9, 0.3, 0.0, 1.0]
+    patterns = [[0, 0, 0, 0, 1, 1, 0], [1, 0, 1, 0, 1, 0, 1], [1, 1, 1, 1, 1, 1, 1], [0, 1, 1, 0, 0, 0, 1]]
+    kinds = {
+        "bool": (lambda p: np.array([bool(x) for x in p]), [True, False, 1, 0, 2, "x"]),
+        "int": (lambda p: np.array(p), [1, 0, True, False, 2]),
+        "uint8": (lambda p: np.array(p, dtype=np.uint8), [1, 0, 255]),
+        "float": (lambda p: np.array(p, dtype=float), [1.0, 0.0, 1, 0.5]),
+        "str": (lambda p: np.array(["gen" if x else "fraud" for x in p]), ["gen", "fraud", "g", ""]),
+        "list-of-bool": (lambda p: [bool(x) for x in p], [True, False]),
+        "object": (lambda p: np.array([("a" if x else None) for x in p], dtype=object), ["a", "b"]),
+    }
+    for kname, (mk, glabels) in kinds.items():
+        for pat in patterns:
+            labels = mk(pat)
+            for gl in glabels:
+                for sc in ("genuine", "fraud"):
+                    case = {"label_kind": kname, "labels": pat, "genuine_label": repr(gl), "scores": scores, "score_class": sc}
+                    ctx.state()
+                    ctx.nontrivial()
+                    ll = labels.tolist() if isinstance(labels, np.ndarray) else labels
+                    want_g = sorted(s_ for l_, s_ in zip(ll, scores) if l_ == gl)
+                    want_f = sorted(s_ for l_, s_ in zip(ll, scores) if not (l_ == gl))
+                    ok, fs = guarded(ctx, "from_labels", case, lambda: FraudScores.from_labels(labels, np.array(scores), genuine_label=gl,
+                                                                                                score_class=sc))
+                    ctx.tick()
+                    if not ok:
+                        continue
+                    got_g, got_f = np.asarray(fs.genuines, dtype=float).tolist(), np.asarray(fs.frauds, dtype=float).tolist()
+                    ctx.outcome((kname, repr(gl), tuple(got_g)))
+                    if got_g != want_g or got_f != want_f:
+                        ctx.fail("from-labels-splits-by-genuine-label", case, observed=[got_g, got_f], expected=[want_g, want_f])
+    ctx.sample({"kind": "label_kinds", "kinds": list(kinds), "patterns": patterns})
+    return None
+
+
+def _run_wide_dtypes(ctx):
+    """Scores in dtypes wider than float64 (long double, exact rationals): out of [0,1] by less than a float64 ulp."""
+    from fractions import Fraction as Fr
+
+    from score_analysis.applications.doc_fraud import FraudScores
+
+    ld = np.longdouble
+    menus = []
+    if np.finfo(ld).eps < np.finfo(float).eps:
+        one_up, tiny_neg = np.nextafter(ld(1), ld(2)), -np.finfo(ld).tiny
+        menus.append(("longdouble", ld, [ld(0), ld(0.25), ld(1), one_up, tiny_neg, ld(1) - np.finfo(ld).eps, ld(1.5)],
+                      lambda v: bool(v < 0 or v > 1)))
+    menus.append(("Fraction", object, [Fr(0), Fr(1, 3), Fr(1), 1 + Fr(1, 10**30), -Fr(1, 10**40), 1 - Fr(1, 10**30), Fr(3, 2)],
+                  lambda v: bool(v < 0 or v > 1)))
+    for dname, dt, vals, bad in menus:
+        for i, gv in enumerate(vals):
+            for j, fv in enumerate(vals):
+                for sc in ("genuine", "fraud"):
+                    g, f = [vals[1], gv], [fv]
+                    inv = any(bad(v) for v in g + f)
+                    case = {"dtype": dname, "genuines": [str(v) for v in g], "frauds": [str(v) for v in f], "score_class": sc}
+                    ctx.state()
+                    ctx.tick()
+                    ctx.nontrivial()
+                    try:
+                        FraudScores(genuines=np.array(g, dtype=dt), frauds=np.array(f, dtype=dt), score_class=sc)
+                        raised = None
+                    except ValueError as e:
+                        raised = e
+                    except Exception as e:  # noqa
+                        ctx.fail("unexpected-exception:construct", case, observed=repr(e), expected="ValueError or object")
+                        continue
+                    ctx.outcome((dname, inv, raised is not None))
+                    if inv and raised is None:
+                        ctx.fail("valueerror-iff-out-of-range", case, observed="constructed", expected="ValueError")
+                    elif not inv and raised is not None:
+                        ctx.fail("valueerror-iff-out-of-range", case, observed=repr(raised), expected="constructed")
+    ctx.sample({"kind": "wide_dtypes", "dtypes": [m[0] for m in menus]})
+    return None
 
 
 def run(item, ctx, tier, seed):
@@ -63,6 +145,10 @@ def run(item, ctx, tier, seed):
 
     warnings.simplefilter("ignore")
     b = bounds(tier)
+    if item.get("label_kinds"):
+        return _run_label_kinds(ctx)
+    if item.get("wide_dtypes"):
+        return _run_wide_dtypes(ctx)
     if item.get("labels"):
         # label translations are mutually inverse on both enums (and on their string values)
         ctx.state()
